@@ -76,6 +76,13 @@ def codegen(crate_dir, target_dir, log, extra_flags=(), timeout=1500, harnesses=
         for h in sorted(set(harnesses)):
             cmd += ["--harness", h.split("::")[-1]]
         cmd += ["--exact"] if False else []
+    # Force a rebuild of the harness crate itself (dependencies stay cached): cargo would
+    # otherwise consider an earlier build with the same harness selection fresh, and the
+    # artefacts picked up below must be the ones produced by THIS invocation from /repo's
+    # current working tree.
+    lib_rs = os.path.join(crate_dir, "src", "lib.rs")
+    if os.path.exists(lib_rs):
+        os.utime(lib_rs, None)
     t_start = time.time()
     rc, out, wall = run(cmd, timeout, cwd=crate_dir, log=log)
     if rc != 0:
